@@ -654,7 +654,40 @@ func Cat(a, b *Term) *Term {
 	if a.Op == "app" && a.Name == "cat" {
 		return Cat(a.Args[0], Cat(a.Args[1], b))
 	}
+	// adjacent zero blocks of literal length merge (T0: take/drop inside a zero block + take_drop; Lean: zeros_cat)
+	if na, ok := zeroBlock(a); ok {
+		if nb, ok := zeroBlock(b); ok {
+			return Zeros(IntLit(na + nb))
+		}
+		if b.Op == "app" && b.Name == "cat" {
+			if nb, ok := zeroBlock(b.Args[0]); ok {
+				return Cat(Zeros(IntLit(na+nb)), b.Args[1])
+			}
+		}
+	}
 	return App("cat", SBytes, a, b)
+}
+
+// zeroBlock: u8(0) or zeros(n) with a literal n >= 1.
+func zeroBlock(t *Term) (int64, bool) {
+	if t.Op != "app" || len(t.Args) != 1 {
+		return 0, false
+	}
+	a := t.Args[0]
+	if a.Op != "int" || !a.Num.IsInt64() {
+		return 0, false
+	}
+	switch t.Name {
+	case "u8":
+		if a.Num.Sign() == 0 {
+			return 1, true
+		}
+	case "zeros":
+		if n := a.Num.Int64(); n >= 1 && n < 1<<20 {
+			return n, true
+		}
+	}
+	return 0, false
 }
 
 // CatL builds left-nested concatenation without re-association (used for views built by appends).
